@@ -1,0 +1,73 @@
+// +build verif
+
+package rand
+
+import (
+	"os"
+	"strconv"
+	"sync"
+)
+
+// Under the verif tag Read draws from a seeded splitmix64 stream so that a
+// simulated run is a function of its seed. VerifNext queues byte strings that
+// are handed out first, one per Read call of exactly that length, which is how
+// the simulator places initial sequence numbers.
+var (
+	verifMu    sync.Mutex
+	verifState uint64
+	verifQueue [][]byte
+	verifOn    bool
+)
+
+func init() {
+	if v := os.Getenv("VERIF_RAND_SEED"); v != "" {
+		if n, err := strconv.ParseUint(v, 10, 64); err == nil {
+			VerifSeed(n)
+		}
+	} else {
+		VerifSeed(1)
+	}
+}
+
+// VerifSeed (re)seeds the stream and clears the queue.
+func VerifSeed(seed uint64) {
+	verifMu.Lock()
+	verifState = seed
+	verifQueue = nil
+	verifOn = true
+	verifMu.Unlock()
+}
+
+// VerifNext queues b to be returned by the next Read of len(b) bytes.
+func VerifNext(b []byte) {
+	verifMu.Lock()
+	verifQueue = append(verifQueue, append([]byte(nil), b...))
+	verifMu.Unlock()
+}
+
+func verifRead(b []byte) (int, error, bool) {
+	verifMu.Lock()
+	defer verifMu.Unlock()
+	if !verifOn {
+		return 0, nil, false
+	}
+	for i, q := range verifQueue {
+		if len(q) == len(b) {
+			copy(b, q)
+			verifQueue = append(verifQueue[:i], verifQueue[i+1:]...)
+			return len(b), nil, true
+		}
+	}
+	for i := 0; i < len(b); {
+		verifState += 0x9e3779b97f4a7c15
+		z := verifState
+		z = (z ^ (z >> 30)) * 0xbf58476d1ce4e5b9
+		z = (z ^ (z >> 27)) * 0x94d049bb133111eb
+		z ^= z >> 31
+		for k := 0; k < 8 && i < len(b); k++ {
+			b[i] = byte(z >> (8 * uint(k)))
+			i++
+		}
+	}
+	return len(b), nil, true
+}
